@@ -142,6 +142,8 @@ func (m *runtimeContextManager) LinearRequire(cpuFactor uint64, amt uint64) {
 func (m *runtimeContextManager) ResetQuota() {
 }
 
+func (m *runtimeContextManager) propagateTermination(e ContextTerminationError) {}
+
 func (m *runtimeContextManager) TerminateContext(format string, args ...interface{}) {
 	// I don't know if it should do it?
 	panic(ContextTerminationError{
